@@ -88,10 +88,11 @@ def load_rewrites():
         patch = os.path.join(d, rid, 'patch-rebased.diff')
         if not os.path.exists(patch):
             patch = os.path.join(d, rid, 'patch.diff')
-        props = [m['property']] if m.get('property', '*') != '*' else ['C%02d' % i for i in range(1, 21)]
+        allp = not (len(m.get('property', '*')) == 3 and m['property'][0] == 'C' and m['property'][1:].isdigit())      # '*' and 'FX' (corrected variants): every check
+        props = [m['property']] if not allp else ['C%02d' % i for i in range(1, 21)]
         unread = sorted(k for k, r in (m.get('checks_not_silent') or {}).items() if isinstance(r, dict) and r.get('exit') == 2)
         out.append({'id': 'rewrite:' + rid, 'patch': patch, 'properties': props, 'kind': 'rewrite', 'unreadable_for': unread,
-                    'note': 'independent behaviour-preserving rewrite', 'all_props': m.get('property', '*') == '*'})
+                    'note': 'independent behaviour-preserving rewrite', 'all_props': allp})
     return out
 
 
